@@ -80,75 +80,155 @@ theorem trel_apply (t : Tree) (s : Nat) (m : KMap) (h : TRel t s m) (k : Key) (v
     · rw [if_neg hk, if_neg (Ne.symm hk)]
       exact h.abs k'
 
-/-! batches: all items carry the same seqno; distinct keys keep every write fresh for its key -/
+/-! batches: all items carry the same seqno; a key named again replaces its earlier item -/
 
 structure BRel (t : Tree) (s : Nat) (m : KMap) (done : List Key) : Prop where
   inv : Inv t
-  below : ∀ e ∈ t.comps.flatten, e.seqno < s ∨ (e.seqno = s ∧ e.key ∈ done)
+  below : ∀ e ∈ t.comps.flatten, e.seqno < s ∨ (e.seqno = s ∧ e.key ∈ done ∧ e ∈ t.active)
   abs : ∀ k, t.absGet none k = m.get k
 
-theorem brel_apply (t : Tree) (s : Nat) (m : KMap) (done : List Key) (h : BRel t s m done)
-    (k : Key) (hk : k ∉ done) (v : Option Val) :
-    BRel (t.apply (itemEntry s k v)) s ((k, v) :: m) (k :: done) := by
-  have hf : FreshFor t (itemEntry s k v) := by
-    intro d hd hdk
-    rw [itemEntry_seqno]
-    rcases h.below d hd with hlt | ⟨_, hmem⟩
-    · exact hlt
-    · rw [itemEntry_key] at hdk; rw [hdk] at hmem; exact absurd hmem hk
-  refine ⟨apply_inv t _ h.inv hf, ?_, ?_⟩
-  · intro e he
-    rw [apply_comps, List.mem_cons] at he
-    rcases he with rfl | he
-    · right; exact ⟨itemEntry_seqno _ _ _, by rw [itemEntry_key]; simp⟩
-    · rcases h.below e he with hlt | ⟨h1, h2⟩
-      · left; exact hlt
-      · right; exact ⟨h1, by simp [h2]⟩
+theorem lower_below {t : Tree} {s : Nat} {m : KMap} {done : List Key} (h : BRel t s m done)
+    (x : VEntry) (hx : x ∈ t.sealed.flatten ++ t.tables.flatten) : x.seqno < s := by
+  have hmem : x ∈ t.comps.flatten := by rw [comps_flatten]; exact List.mem_append_right _ hx
+  rcases h.below x hmem with hlt | ⟨_, _, hact⟩
+  · exact hlt
+  · -- an entry of the active memtable cannot also sit in a lower component
+    have ho := h.inv.ordered
+    simp only [Tree.comps, Ordered] at ho
+    have := (ordered_append_flat (t.sealed ++ t.tables) t.active).mp ho.1 x hact x
+      (by rw [List.flatten_append]; exact hx) rfl
+    omega
+
+theorem brel_applyR (t : Tree) (s : Nat) (m : KMap) (done : List Key) (h : BRel t s m done)
+    (k : Key) (v : Option Val) :
+    BRel (t.applyR (itemEntry s k v)) s ((k, v) :: m) (k :: done) := by
+  have hek : (itemEntry s k v).key = k := itemEntry_key s k v
+  have hes : (itemEntry s k v).seqno = s := itemEntry_seqno s k v
+  generalize he : itemEntry s k v = e at hek hes
+  have hflat : (t.applyR e).comps.flatten =
+      e :: ((t.active.filter fun x => !(decide (x.key = e.key) && decide (x.seqno = e.seqno))) ++
+        (t.sealed.flatten ++ t.tables.flatten)) := by
+    simp [Tree.applyR, Tree.comps, List.flatten_append]
+  have hfilt_sub : ∀ x, x ∈ (t.active.filter fun x => !(decide (x.key = e.key) && decide (x.seqno = e.seqno))) →
+      x ∈ t.active ∧ ¬ (x.key = k ∧ x.seqno = s) := by
+    intro x hx
+    have := List.mem_filter.mp hx
+    refine ⟨this.1, ?_⟩
+    have h2 := this.2
+    simp only [Bool.not_eq_true', Bool.and_eq_false_iff, decide_eq_false_iff_not, hek, hes] at h2
+    intro ⟨a, b⟩
+    rcases h2 with h2 | h2
+    · exact h2 a
+    · exact h2 b
+  have hold_flat := comps_flatten t
+  -- every old entry with key k has seqno ≤ s; those kept in the new tree with key k have seqno < s
+  have hkept_lt : ∀ x, x ∈ (t.active.filter fun x => !(decide (x.key = e.key) && decide (x.seqno = e.seqno))) ++
+      (t.sealed.flatten ++ t.tables.flatten) → x.key = k → x.seqno < s := by
+    intro x hx hxk
+    rcases List.mem_append.mp hx with hx | hx
+    · obtain ⟨ha, hne⟩ := hfilt_sub x hx
+      have hmem : x ∈ t.comps.flatten := by rw [hold_flat]; exact List.mem_append_left _ ha
+      rcases h.below x hmem with hlt | ⟨heq, _, _⟩
+      · exact hlt
+      · exact absurd ⟨hxk, heq⟩ hne
+    · exact lower_below h x hx
+  have hsubl : ((t.active.filter fun x => !(decide (x.key = e.key) && decide (x.seqno = e.seqno))) ++
+      (t.sealed.flatten ++ t.tables.flatten)).Sublist t.comps.flatten := by
+    rw [hold_flat]
+    exact List.Sublist.append List.filter_sublist (List.Sublist.refl _)
+  have hdist' : Distinct (t.applyR e).comps.flatten := by
+    rw [hflat, Distinct, List.pairwise_cons]
+    refine ⟨?_, distinct_sublist hsubl h.inv.distinct⟩
+    intro d hd hk
+    have := hkept_lt d hd (by rw [← hk, hek])
+    omega
+  have hinv' : Inv (t.applyR e) := by
+    refine ⟨?_, hdist'⟩
+    have ho := h.inv.ordered
+    simp only [Tree.applyR, Tree.comps, Ordered] at ho ⊢
+    refine ⟨?_, ho.2⟩
+    intro x hx d hdm e' he' hk
+    simp only [List.mem_cons] at hx
+    rcases hx with rfl | hx
+    · have : e' ∈ t.sealed.flatten ++ t.tables.flatten := by
+        rw [← List.flatten_append]; exact List.mem_flatten.mpr ⟨d, hdm, he'⟩
+      have := lower_below h e' this
+      omega
+    · exact ho.1 x (hfilt_sub x hx).1 d hdm e' he' hk
+  refine ⟨hinv', ?_, ?_⟩
+  · intro x hx
+    rw [hflat, List.mem_cons] at hx
+    rcases hx with rfl | hx
+    · right; exact ⟨hes, by rw [hek]; simp, by simp [Tree.applyR]⟩
+    · rcases List.mem_append.mp hx with hx | hx
+      · obtain ⟨ha, _⟩ := hfilt_sub x hx
+        have hmem : x ∈ t.comps.flatten := by rw [hold_flat]; exact List.mem_append_left _ ha
+        rcases h.below x hmem with hlt | ⟨h1, h2, _⟩
+        · left; exact hlt
+        · right; exact ⟨h1, by simp [h2], by simp only [Tree.applyR, List.mem_cons]; right; exact hx⟩
+      · left; exact lower_below h x hx
   · intro k'
-    rw [apply_abs t _ h.inv hf, itemEntry_key, itemEntry_toVal]
-    simp only [KMap.get]
+    simp only [Tree.absGet, KMap.get]
     by_cases hk' : k' = k
-    · subst hk'; simp
-    · rw [if_neg hk', if_neg (Ne.symm hk')]
-      exact h.abs k'
+    · subst hk'
+      simp only [if_true]
+      have : newestIn none k' (t.applyR e).comps.flatten = some e := by
+        rw [newestIn_iff _ _ _ hdist']
+        refine ⟨by rw [hflat]; simp, hek, rfl, fun d hdm hdk _ => ?_⟩
+        rw [hflat, List.mem_cons] at hdm
+        rcases hdm with rfl | hdm
+        · exact Nat.le_refl _
+        · have := hkept_lt d hdm hdk; omega
+      rw [this, ← he]
+      show (itemEntry s k' v).toVal = v
+      exact itemEntry_toVal s k' v
+    · have hkne : ¬ k = k' := fun x => hk' x.symm
+      simp only [hkne, if_false]
+      rw [← h.abs k']
+      simp only [Tree.absGet]
+      congr 1
+      cases hn : newestIn none k' t.comps.flatten with
+      | none =>
+        rw [newestIn_none] at hn ⊢
+        intro d hdm
+        rw [hflat, List.mem_cons] at hdm
+        rcases hdm with rfl | hdm
+        · intro ⟨a, _⟩; rw [hek] at a; exact hk' a.symm
+        · exact hn d (hsubl.subset hdm)
+      | some x =>
+        obtain ⟨hm, hxk, hv, hmax⟩ := newestIn_some none k' _ x hn
+        rw [newestIn_iff _ _ _ hdist']
+        refine ⟨?_, hxk, hv, ?_⟩
+        · rw [hflat, List.mem_cons]; right
+          rw [hold_flat] at hm
+          rcases List.mem_append.mp hm with hm | hm
+          · refine List.mem_append_left _ (List.mem_filter.mpr ⟨hm, ?_⟩)
+            simp only [Bool.not_eq_true', Bool.and_eq_false_iff, decide_eq_false_iff_not, hek]
+            left; rw [hxk]; exact hk'
+          · exact List.mem_append_right _ hm
+        · intro d hdm hdk hdv
+          rw [hflat, List.mem_cons] at hdm
+          rcases hdm with rfl | hdm
+          · rw [hek] at hdk; exact absurd hdk.symm hk'
+          · exact hmax d (hsubl.subset hdm) hdk hdv
 
 theorem applyItems_rel (items : List (KsId × Key × Option Val)) (s : Nat)
-    (trees : KsId → Tree) (m : KsId → KMap) (done : List (KsId × Key))
-    (hnd : (items.map fun (ks, k, _) => (ks, k)).Nodup)
-    (hdisj : ∀ it ∈ items, (it.1, it.2.1) ∉ done)
-    (h : ∀ ks, BRel (trees ks) s (m ks) ((done.filter fun p => p.1 = ks).map (·.2))) :
+    (trees : KsId → Tree) (m : KsId → KMap) (done : KsId → List Key)
+    (h : ∀ ks, BRel (trees ks) s (m ks) (done ks)) :
     ∀ ks, ∃ d, BRel (applyItems trees s items ks) s (specItems m items ks) d := by
   induction items generalizing trees m done with
   | nil => intro ks; exact ⟨_, h ks⟩
   | cons it r ih =>
     obtain ⟨ks0, k0, v0⟩ := it
     simp only [applyItems, specItems]
-    simp only [List.map_cons, List.nodup_cons] at hnd
-    apply ih _ _ ((ks0, k0) :: done) hnd.2
-    · intro it hit
-      simp only [List.mem_cons, not_or]
-      refine ⟨?_, hdisj it (by simp [hit])⟩
-      intro heq
-      apply hnd.1
-      rw [← heq]
-      exact List.mem_map.mpr ⟨it, hit, rfl⟩
-    · intro ks
-      by_cases hks : ks = ks0
-      · subst hks
-        simp only [if_true]
-        have hk0 : k0 ∉ (done.filter fun p => p.1 = ks).map (·.2) := by
-          intro hmem
-          obtain ⟨p, hp, hpk⟩ := List.mem_map.mp hmem
-          have := List.mem_filter.mp hp
-          apply hdisj (ks, k0, v0) (by simp)
-          obtain ⟨p1, p2⟩ := p
-          simp at this hpk
-          simp [← hpk, ← this.2, this.1]
-        have := brel_apply _ s _ _ (h ks) k0 hk0 v0
-        simpa [List.filter] using this
-      · simp only [if_neg hks]
-        have := h ks
-        simpa [List.filter, Ne.symm hks] using this
+    apply ih _ _ (fun x => if x = ks0 then k0 :: done ks0 else done x)
+    intro ks
+    by_cases hks : ks = ks0
+    · subst hks
+      simp only [if_true]
+      exact brel_applyR _ s _ _ (h ks) k0 v0
+    · simp only [if_neg hks]
+      exact h ks
 
 theorem brel_to_trel {t : Tree} {s : Nat} {m : KMap} {d : List Key} (h : BRel t s m d) :
     TRel t (s + 1) m :=
